@@ -2,7 +2,9 @@
 # usage: seed_dbg.sh <seed-name> <command...> : runs the command with the seed applied to /tmp/wt/head (VERIF_REPO set), under the lock
 seed=$1; shift
 wt=/tmp/wt/head
+mkdir -p /tmp/wt
 exec 9>/tmp/wt/head.lock; flock 9
+[ -d $wt/.git ] || [ -f $wt/.git ] || { git -C /repo worktree prune; git -C /repo worktree add -q --detach $wt HEAD; }   # scratch worktree, created on demand
 git -C $wt checkout -q -- . ; git -C $wt clean -fdq
 git -C $wt checkout -q --detach $(git -C /repo rev-parse HEAD) 2>/dev/null
 p=/verif/seeded/$seed/patch.diff
